@@ -61,6 +61,10 @@ CLAIMED = {
             'bounded, solver-complete inside the bound: k-means (2 objects, any step results incl. NaN) and the simplex (d<=2, any deterministic objective) stop within their iteration caps; for PCA 2x2 EVERY loop state containing a NaN keeps the NaN and cannot exit (the non-termination mechanism); the finite input that reaches that state is a listed known finding re-run natively',
             'known finding C18_nipals_nan (PCA/PLS/CPCA never return on data without residual variance) is recorded, not repaired; termination on regular data and finiteness of leading components are limit statements, not decided; PLS/CPCA loops not encoded',
             'DESIGN.md 5/C18'),
+    'C20': ('own encoder: Python ast of the binding modules + clang 14 record layouts and LLVM IR of the current headers -> z3 bit-vector queries (field images, SysV register images of scalar parameters) plus structural comparison',
+            'complete for the current tree: every ctypes.Structure field (order, offset, width, kind, pointer depth, pointee) and every lsci.<f>.argtypes/restype (arity, register class, width, pointer depth, return kind) is compared with the C side; a z3 query per field/scalar parameter asks for an image/value read differently by the two sides',
+            'LP64 SysV x86-64; ctypes natural alignment; field names are not compared (free in ctypes); trusted: clang layouts, python ast, z3',
+            'DESIGN.md 5/C20'),
 }
 NA = {
     'C16': 'behaviour lives inside SQLite and libc decimal formatting (FFI + file I/O); nothing of it is source in /repo that could be executed symbolically - an encoding would verify a hand-written SQL fake, not the code',
